@@ -8,6 +8,7 @@
 -/
 import Theorems.Lemmas.CodecSpec
 import Theorems.Typed
+import Theorems.Enums
 
 namespace Amqp.CodecSpec
 open Amqp.Codec Amqp.Gen.Codes
